@@ -17,7 +17,7 @@ CONSTANTS KindSet,     \* kinds of POST bodies generated in this configuration (
 
 Reaches(t, k) == t \in tab /\ ~(k = "ctype" /\ ~Direct)
 EnvOK(t, k, g) ==
-  /\ k \in KindSet /\ (t \in Sess \/ (t = NoId /\ WithNoId) \/ (t = Unknown /\ WithUnknown))
+  /\ k \in KindSet /\ ((t \in Sess /\ t <= nopen) \/ (t = NoId /\ WithNoId) \/ (t = Unknown /\ WithUnknown))
   /\ g => Reaches(t, k)
   /\ Direct => (t \in tab /\ k \notin {"slow", "ctype"})
   /\ k = "slow" => Reaches(t, k) /\ ~g
@@ -79,7 +79,7 @@ SettledSpec == Init /\ [][SettledNext]_vars
 \* view of the cover graph: outputs (got, out, results of Writes) and ghosts are hidden, a POST that is
 \* over and whose message is nowhere any more is just "done" - none of this affects what is enabled
 InPlay(p) == post[p].ph # "done" \/ \E s \in Sess : p \in Range(q[s]) \/ p \in hand[s]
-CoverView == <<nopen, tab, st, get, reading, q, hand, ended \cap {p \in Posts : InPlay(p)},
+CoverView == <<nopen, tab, st, get, reading, closing, q, hand, ended \cap {p \in Posts : InPlay(p)},
                [s \in Sess |-> Len(sres[s])], [s \in Sess |-> eofs[s]],
                [p \in Posts |-> IF InPlay(p) THEN post[p] ELSE [NewPost EXCEPT !.ph = "done"]]>>
 
